@@ -86,7 +86,55 @@ impl AssemblyBuffer {
     );
 
     // unwrap: u32 should fit into usize
+    // Sanity checks. DataFrag deserializer validates each submessage in isolation,
+    // but here we must also check that it agrees with the sample being assembled
+    // and with the fragment size this writer has been using. Otherwise the
+    // computations below would index outside of the buffer or the bitmap.
+    if usize::from(datafrag.fragment_size) != frag_size
+      || usize::try_from(datafrag.data_size).ok() != Some(self.buffer_bytes.len())
+    {
+      warn!(
+        "insert_frags: DATAFRAG {:?} has fragment_size={} data_size={}, but this sample is being \
+         assembled with fragment_size={} data_size={}. Discarding.",
+        datafrag.writer_sn,
+        datafrag.fragment_size,
+        datafrag.data_size,
+        frag_size,
+        self.buffer_bytes.len()
+      );
+      return;
+    }
+    if frags_in_submessage < 1 || start_frag_from_0 + frags_in_submessage > self.fragment_count {
+      warn!(
+        "insert_frags: DATAFRAG {:?} claims fragments {}..{} but the sample has only {}. Discarding.",
+        datafrag.writer_sn,
+        fragment_starting_num,
+        start_frag_from_0 + frags_in_submessage,
+        self.fragment_count
+      );
+      return;
+    }
+
     let from_byte = start_frag_from_0 * frag_size;
+
+    // The payload must actually contain all the fragments the header claims.
+    // Only the very last fragment of the sample may be shorter than frag_size.
+    let expected_payload_size = std::cmp::min(
+      frags_in_submessage * frag_size,
+      self.buffer_bytes.len() - from_byte,
+    );
+    if datafrag.serialized_payload.len() < expected_payload_size {
+      warn!(
+        "insert_frags: DATAFRAG {:?} fragments {}..{} need {} bytes of payload, but got only {}. \
+         Discarding.",
+        datafrag.writer_sn,
+        fragment_starting_num,
+        start_frag_from_0 + frags_in_submessage,
+        expected_payload_size,
+        datafrag.serialized_payload.len()
+      );
+      return;
+    }
 
     // Last fragment might be smaller than fragment size
     // Copy reported number of fragments, or as much data as there is, whichever
